@@ -27,6 +27,7 @@ class PathEnum:
         self.F = F
         self.fn = fn
         self.paths = []
+        self.effects = []      # per path (parallel to self.paths): ordered list of (callee, args) of every call executed
         self.max_paths = max_paths
         self.inline = inline or (lambda name: False)
 
@@ -34,7 +35,7 @@ class PathEnum:
         store = {}
         for i in range(1, self.fn.argc + 1):
             store[i] = T('param', i)
-        self._dfs(0, store, [], set())
+        self._dfs(0, store, [], set(), (), {})
         return self.paths
 
     # ---- values
@@ -137,7 +138,7 @@ class PathEnum:
         store[pl['l']] = T('unknown-write', pl['l'])
 
     # ---- traversal
-    def _dfs(self, bid, store, atoms, onpath):
+    def _dfs(self, bid, store, atoms, onpath, eff=(), mref=None):
         fn = self.fn
         if len(self.paths) > self.max_paths:
             raise Undecided('more than %d paths' % self.max_paths)
@@ -148,40 +149,60 @@ class PathEnum:
             return
         onpath = onpath | {bid}
         store = dict(store)
+        mref = dict(mref or {})
         for st in b['st']:
             if st['s'] == 'assign':
+                rv = st['rv']
+                if not st['lhs']['p']:
+                    if rv['r'] == 'ref' and rv.get('mut'):
+                        if not rv['pl']['p']:
+                            mref[st['lhs']['l']] = rv['pl']['l']
+                        elif rv['pl']['p'] == ['*'] and rv['pl']['l'] in mref:
+                            mref[st['lhs']['l']] = mref[rv['pl']['l']]
+                    elif rv['r'] == 'use' and rv['op']['k'] in ('copy', 'move') and not rv['op']['pl']['p'] and rv['op']['pl']['l'] in mref:
+                        mref[st['lhs']['l']] = mref[rv['op']['pl']['l']]
                 self.write(store, st['lhs'], self.rvalue(store, st['rv']))
         t = b['term']
         k = t['t']
         if k == 'return':
             self.paths.append((list(atoms), store.get(0, T('unit'))))
+            self.effects.append(list(eff))
             return
         if k == 'unreachable':
             return
         if k in ('goto', 'drop'):
-            return self._dfs(t['to'], store, atoms, onpath)
+            return self._dfs(t['to'], store, atoms, onpath, eff, mref)
         if k == 'assert':
             # the continuing edge: assertion holds
-            return self._dfs(t['to'], store, atoms, onpath)
+            return self._dfs(t['to'], store, atoms, onpath, eff, mref)
         if k == 'call':
             v = self.call(store, t)
             if t['to'] is None:
                 self.paths.append((list(atoms), T('panic', cdef(t) or cres(t))))
+                self.effects.append(list(eff))
                 return
+            if v[0] == 'call':
+                eff = eff + ((v[1], v[2]),)
+                # a callee receiving `&mut L` may change L: the local now holds "L as mutated by this call"
+                for i, a in enumerate(t['args']):
+                    if a['k'] in ('copy', 'move') and not a['pl']['p'] and a['pl']['l'] in mref:
+                        L = mref[a['pl']['l']]
+                        others = tuple(x for j, x in enumerate(v[2]) if j != i)
+                        store[L] = T('mutated', store.get(L, T('undef', L)), v[1], others)
             self.write(store, t['dest'], v)
-            return self._dfs(t['to'], store, atoms, onpath)
+            return self._dfs(t['to'], store, atoms, onpath, eff, mref)
         if k == 'switch':
             v = self.operand(store, t['on'])
             v = fold(v)
             if v[0] == 'const':
                 for val, tgt in t['targets']:
                     if int(val) == v[1]:
-                        return self._dfs(tgt, store, atoms, onpath)
-                return self._dfs(t['otherwise'], store, atoms, onpath)
+                        return self._dfs(tgt, store, atoms, onpath, eff, mref)
+                return self._dfs(t['otherwise'], store, atoms, onpath, eff, mref)
             vals = [int(x) for x, _ in t['targets']]
             for val, tgt in t['targets']:
-                self._dfs(tgt, store, atoms + [(v, ('eq', int(val)))], onpath)
-            self._dfs(t['otherwise'], store, atoms + [(v, ('notin', tuple(vals)))], onpath)
+                self._dfs(tgt, store, atoms + [(v, ('eq', int(val)))], onpath, eff, mref)
+            self._dfs(t['otherwise'], store, atoms + [(v, ('notin', tuple(vals)))], onpath, eff, mref)
             return
         raise Undecided('terminator %s' % k)
 
